@@ -118,7 +118,7 @@ theorem historyWiring_findTablesBody : Gen.HistoryWiring.findTablesBody =
   ["random_references = parse_result.random_references", "referenced_names = set((get_referent_name(random_reference) for random_reference in random_references))", "referenced_tables = set((nicknames_and_tables.get(name, name) for name in referenced_names))", "return referenced_tables"] := rfl
 /-- `get_referent_name` statements -/
 theorem historyWiring_referentNameBody : Gen.HistoryWiring.referentNameBody =
-  ["args, kwargs = (random_reference.args, random_reference.kwargs)", "assert not (args and kwargs)", "if args:\n    ret = args[0].definition\nelif kwargs:\n    ret = kwargs['to'].definition", "if not isinstance(ret, str):\n    raise DataGenSyntaxError(f'random_reference should only refer to a name, not {ret}')", "return ret"] := rfl
+  ["args, kwargs = (random_reference.args, random_reference.kwargs)", "assert not (args and kwargs)", "target = args[0] if args else kwargs.get('to')", "ret = getattr(target, 'definition', None)", "if not isinstance(ret, str):\n    raise DataGenSyntaxError(f'random_reference should only refer to a name, not {ret}')", "return ret"] := rfl
 /-- `RuntimeContext.remember_row` statements -/
 theorem historyWiring_rememberRowBody : Gen.HistoryWiring.rememberRowBody =
   ["for fieldname, fieldvalue in row.items():\n    if isinstance(fieldvalue, (ObjectRow, ObjectReference)):\n        self.interpreter.globals.register_intertable_reference(tablename, fieldvalue._tablename, fieldname)", "history_tables = self.interpreter.tables_to_keep_history_for", "should_save: bool = tablename in history_tables or nickname in history_tables or SAVE_EVERYTHING", "if should_save:\n    self.interpreter.row_history.save_row(tablename, nickname, row)"] := rfl
